@@ -785,6 +785,12 @@ _it_next_base = it_next
 
 def it_next(m, it):      # noqa: F811  -- extends the dispatcher above
     it = deref_all(m, it) if not isinstance(it, (PyIter, Iter)) else it
+    if isinstance(it, Struct) and len(it.fields) == 2 and all(isinstance(x, int) and not isinstance(x, bool) for x in it.fields):
+        # core::ops::Range<integer> used as an iterator in place
+        if it.fields[0] >= it.fields[1]:
+            return None
+        it.fields[0] += 1
+        return it.fields[0] - 1
     if isinstance(it, Iter):
         if it.pos >= len(it.s.cs):
             return None
@@ -2728,6 +2734,11 @@ def _(m, callee, args):
     v = deref_all(m, args[0])
     if is_sym(v):
         raise Unsupported('to_string of a symbolic integer')
+    q = re.match(r'^<i(\d+|size) as', callee)
+    if q:
+        w = 64 if q.group(1) == 'size' else int(q.group(1))
+        if v >= 1 << (w - 1):
+            v -= 1 << w          # integers are kept modulo 2^w
     return RStr(_dec(v))
 
 
@@ -3004,3 +3015,107 @@ def _(m, callee, args):
         m.write_place(r.frame, r.place, RStr([c for c in cs if truthy(m, m.call_closure(args[1], [c]))]))
         return ()
     raise Unsupported(callee)
+
+
+def cmp_values(m, a, b):
+    """total order of std `Ord` on the value kinds the models know: strings, integers, bools, tuples, `Reverse(..)`"""
+    a, b = deref_all(m, a), deref_all(m, b)
+    if isinstance(a, Struct) and 'Reverse' in str(getattr(a, 'name', '')):
+        return -cmp_values(m, a.fields[0], b.fields[0])
+    if isinstance(a, RStr) and isinstance(b, RStr):
+        if str_eq(m, a, b):
+            return 0
+        return -1 if str_lt(m, a.cs, b.cs) else 1
+    if isinstance(a, tuple) and isinstance(b, tuple):
+        for x, y in zip(a, b):
+            c = cmp_values(m, x, y)
+            if c:
+                return c
+        return (len(a) > len(b)) - (len(a) < len(b))
+    if is_sym(a) or is_sym(b):
+        raise Unsupported('ordering of symbolic integers')
+    if isinstance(a, (int, bool)) and isinstance(b, (int, bool)):
+        return (a > b) - (a < b)
+    raise Unsupported(f'ordering of {a!r} and {b!r}')
+
+
+@model(r'slice::<impl \[.*\]>::(sort_by_key|sort_unstable_by_key|sort_by_cached_key)::<')
+def _(m, callee, args):
+    v = deref_all(m, args[0])
+    items = list(v.items if isinstance(v, RVec) else v)
+    keyed = [(m.call_closure(args[1], [ValRef(it)]), it) for it in items]
+    out = []
+    for k, it in keyed:
+        i = 0
+        while i < len(out) and cmp_values(m, out[i][0], k) <= 0:
+            i += 1
+        out.insert(i, (k, it))
+    res = [it for _, it in out]
+    if isinstance(v, RVec):
+        v.items[:] = res
+    else:
+        v[:] = res
+    return ()
+
+
+@model(r'slice::<impl \[.*\]>::binary_search$|slice::<impl \[.*\]>::binary_search_by_key::<')
+def _(m, callee, args):
+    v = deref_all(m, args[0])
+    items = list(v.items if isinstance(v, RVec) else v)
+    if 'by_key' in callee:
+        raise Unsupported('binary_search_by_key')
+    # the algorithm of core::slice::binary_search_by (the result on an unsorted slice is part of its observable behaviour)
+    size, base = len(items), 0
+    if size == 0:
+        return ERR(0)
+    while size > 1:
+        half = size // 2
+        mid = base + half
+        if cmp_values(m, items[mid], args[1]) <= 0:
+            base = mid
+        size -= half
+    c = cmp_values(m, items[base], args[1])
+    return OK(base) if c == 0 else ERR(base + (1 if c < 0 else 0))
+
+
+@model(r'^std::cmp::Reverse::<|^Reverse::<')
+def _(m, callee, args):
+    return Struct([args[0]], 'Reverse')
+
+
+@model(r'^(std::vec::|alloc::vec::)?from_elem::<')
+def _(m, callee, args):
+    n = args[1]
+    if is_sym(n):
+        raise Unsupported('vec![x; n] with a symbolic n')
+    return RVec([args[0]] * n)
+
+
+@model(r'str::<impl str>::split::<\{closure|str::<impl str>::split::<fn|str::<impl str>::split_terminator::<')
+def _(m, callee, args):
+    cs = rstr(m, args[0]).cs
+    pat = args[1]
+    d = deref_all(m, pat)
+    parts, cur = [], []
+    for c in cs:
+        if isinstance(d, (int,)) or is_sym(d):
+            hit = cmp_char_eq(m, c, d)
+        elif isinstance(d, RStr):
+            raise Unsupported('split_terminator with a string pattern')
+        else:
+            hit = truthy(m, m.call_closure(pat, [c]))
+        if hit:
+            parts.append(cur)
+            cur = []
+        else:
+            cur.append(c)
+    if cur or 'split_terminator' not in callee:
+        parts.append(cur)
+    return PyIter('list', items=[S(x) for x in parts], pos=0)
+
+
+@model(r'char::methods::<impl char>::(to_uppercase|to_lowercase)$')
+def _(m, callee, args):
+    from . import unicode as U_
+    from .models import charval
+    return PyIter('list', items=U_.case_map(m, charval(m, args[0]), 'upper' if callee.endswith('uppercase') else 'lower'), pos=0)
